@@ -69,7 +69,7 @@ func gen12(seed int64, tier string) []drv.Case {
 		// late clients whose first read of a state file fails once (never in the crash families: their late
 		// commits deterministically exhibit known finding 2)
 		if strings.HasPrefix(class, "gate1") && len(cs)%2 == 0 {
-			p.LateFaults = "diamond-done"
+			p.LateFaults = []string{"diamond-done", "split-done"}[(len(cs)/2)%2]
 		} else if class == "stress" && len(cs)%3 == 0 {
 			p.LateFaults = []string{"diamond-done", "split-done"}[r.Intn(2)]
 		}
@@ -486,6 +486,11 @@ func run12(c drv.Case, res *drv.Result) {
 						// the client reads the diamond's state twice (once to clone its descriptor, as the CLI does, once
 						// in the readiness check of the operation itself): both reads are hit
 						if failed[c.Key] >= 2 {
+							return nil
+						}
+						// split descriptors: only the first split this client reads is hit (a fault on every split leaves the
+						// client nothing to work with; a fault on one of several must not make that one split vanish)
+						if p.LateFaults == "split-done" && failed[c.Key] == 0 && len(failed) > 0 {
 							return nil
 						}
 						failed[c.Key]++
